@@ -1,5 +1,5 @@
 namespace Rs
-inductive Trap | overflow | shift | divzero | index | panic | fuel
+inductive Trap | overflow | shift | divzero | index | panic | fuel | assume
   deriving Repr, DecidableEq, Inhabited
 abbrev M := Except Trap
 inductive Ctl (σ ρ : Type) | cont (s : σ) | brk (s : σ) | ret (r : ρ)
@@ -63,6 +63,9 @@ def slice_from {α} (a : Array α) (r : RangeIter) : M (Array α) := if r.lo.toN
 def slice_to {α} (a : Array α) (r : RangeIter) : M (Array α) := if r.hi.toNat ≤ a.size then .ok (a.extract 0 r.hi.toNat) else .error .index
 def slice_range {α} (a : Array α) (r : RangeIter) : M (Array α) := if r.lo ≤ r.hi ∧ r.hi.toNat ≤ a.size then .ok (a.extract r.lo.toNat r.hi.toNat) else .error .index
 @[inline] def toInt_enum (b : Enum) : Int := b
+/-- `rng.gen_range(lo..hi)`: the drawn value is an input of the model; `Trap.assume` = the input violates rand's contract -/
+@[inline] def gen_range_u8 (r lo hi : UInt8) : M UInt8 := if lo ≤ r ∧ r < hi then .ok r else .error .assume
+@[inline] def gen_range_u32 (r lo hi : UInt32) : M UInt32 := if lo ≤ r ∧ r < hi then .ok r else .error .assume
 /-- `<[T]>::len` -/
 @[inline] def len_x {α} (a : Array α) : UInt64 := UInt64.ofNat a.size
 
